@@ -71,8 +71,8 @@ PROPS = {
         ],
     },
     "C16": {
-        "gens": [],
-        "lean_targets": ["Cql.Props.C16", "Cql.Props.C16Close"],
+        "gens": ["inflight"],
+        "lean_targets": ["Cql.Props.C16", "Cql.Props.C16Close", "Cql.Props.C16AsWritten"],
         "harness_timeout": 5400,
         "trusted_base": COMMON_TRUST + [HARNESS,
             "Cql/Timer.lean: hand-written timed model of the request life-cycle in client/inflight.go (one timer per request, restarted on every "
@@ -222,14 +222,18 @@ PROPS = {
         ],
     },
     "C09": {
-        "lean_targets": ["Cql.Props.C09", "Cql.Props.C09Concurrent"],
+        "gens": ["inflight"],
+        "lean_targets": ["Cql.Props.C09", "Cql.Props.C09Concurrent", "Cql.Props.C09Managed"],
         "trusted_base": COMMON_TRUST + [HARNESS,
             "Cql/Inflight.lean: hand-written API-level model of client/inflight.go (one step = one handler call), tied to the code "
             "only by the correspondence run through the `verif` export shim client/verif_hooks.go"],
         "assumptions": [
             "API-level histories treat each handler call as atomic; concurrent senders are covered separately at the granularity of the two "
-            "critical sections of onOutgoingFrameEnqueued (Cql/InflightMicro.lean: every interleaving); finer interleavings (inside a "
-            "critical section, the id channel) rest on Go's mutex and channel semantics and are only sampled by the harness",
+            "critical sections of onOutgoingFrameEnqueued (Cql/InflightMicro.lean: every interleaving), and managed ids at the granularity of "
+            "borrow / look / register for senders and look up / remove / put back for the reader goroutine (Cql/ManagedMicro.lean: every "
+            "interleaving); the ORDER of these steps is read off client/inflight.go on every run (Cql/Gen/InflightFacts.lean) and the "
+            "theorems are stated for it; finer interleavings (inside a critical section, the id channel) rest on Go's mutex and channel "
+            "semantics and are only sampled by the harness (senders racing a responder on the real handler)",
             "timers do not fire during the modelled history (timeouts are C16)",
             "the request channel capacity MaxPending is at least 1",
         ],
